@@ -358,6 +358,106 @@ pub(crate) async fn scenario(epmd: &net::EpmdTable, name: &str, own_flags: u64, 
     }
 }
 
+/// A fragmented message whose fragments arrive slowly: the gaps between them add up to several times the connection's
+/// timeout, bridged by ticks that each arrive well inside it (a live peer that is busy). The message must be delivered.
+/// Judged only when the peer's writes really stayed within the intended spacing.
+async fn slow_fragments(ctx: &Ctx, rng: &mut Rng, epmd: &net::EpmdTable, h: usize) {
+    ctx.beat(&format!("slow-fragments/{}", h));
+    let name = format!("sf{}", h);
+    let pl = net::listen_as(epmd, &name).await;
+    let conn_timeout = Duration::from_millis(300);
+    let control = control_of_kind(2, 4_000_000 + h as u32).0;
+    let payload = Val::Tuple(vec![Val::atom("slow"), Val::int(h as i128), Val::binary(&vec![0x6b; 40 + rng.below(200)])]);
+    let msg = crate::refmodel::dist::write_message(&[], &[&control, &payload]);
+    let body = msg[2..].to_vec();
+    let nfrag = 2 + rng.below(3);
+    let mut cuts: Vec<usize> = (1..nfrag).map(|_| 1 + rng.below(body.len() - 1)).collect();
+    cuts.sort();
+    let seq: u64 = 0x510_0000 + h as u64;
+    let mut frames: Vec<Vec<u8>> = Vec::new();
+    let mut prev = 0usize;
+    for f in 0..nfrag {
+        let end = if f < cuts.len() { cuts[f] } else { body.len() };
+        let mut b = vec![131u8, if f == 0 { 69 } else { 70 }];
+        b.extend_from_slice(&seq.to_be_bytes());
+        b.extend_from_slice(&((nfrag - f) as u64).to_be_bytes());
+        b.extend_from_slice(&body[prev..end]);
+        frames.push(b);
+        prev = end;
+    }
+    let mut end = vec![112u8];
+    end.extend(ref_encode_canonical(&control_of_kind(1, 9_999_999).0).unwrap());
+    end.extend(ref_encode_canonical(&Val::atom("$end$")).unwrap());
+    let ticks_between = 4 + rng.below(6); // 0.4 .. 0.9 s between two fragments, timeout 0.3 s
+    let peer_task = tokio::spawn(async move {
+        let mut worst = Duration::ZERO;
+        let Ok(mut peer) = pl.accept("cookie", PEER_BASE_FLAGS | FLAG_DIST_HDR_ATOM_CACHE | FLAG_FRAGMENTS, 0x4242_4243).await else { return None };
+        if peer.handshake().await.is_err() {
+            return None;
+        }
+        let mut last = Instant::now();
+        for (i, f) in frames.iter().enumerate() {
+            if i > 0 {
+                for _ in 0..ticks_between {
+                    tokio::time::sleep(Duration::from_millis(100)).await;
+                    worst = worst.max(last.elapsed());
+                    let _ = peer.sock_write(&[0, 0, 0, 0]).await;
+                    last = Instant::now();
+                }
+            }
+            worst = worst.max(last.elapsed());
+            let _ = peer.write_frame4(f).await;
+            last = Instant::now();
+        }
+        let _ = peer.write_frame4(&end).await;
+        tokio::time::sleep(Duration::from_millis(400)).await;
+        Some(worst)
+    });
+    let own = DistributionFlags::default().as_u64() | FLAG_DIST_HDR_ATOM_CACHE | FLAG_FRAGMENTS;
+    let cfg = ConnectionConfig::new("rust@127.0.0.1", format!("{}@127.0.0.1", name), "cookie").with_epmd_host("127.0.0.1").with_flags(DistributionFlags::new(own)).with_timeout(conn_timeout);
+    let mut conn = Connection::new(cfg);
+    if let Err(e) = conn.connect().await {
+        ctx.inconclusive(&format!("handshake with the scripted peer failed: {}", e));
+        peer_task.abort();
+        return;
+    }
+    let mut results: Vec<Result<Option<Val>, String>> = Vec::new();
+    let watchdog = Instant::now();
+    while watchdog.elapsed() < Duration::from_secs(20) {
+        match conn.receive_message().await {
+            Ok((_, p)) => {
+                let end = matches!(&p, Some(t) if t.is_atom_with_name("$end$"));
+                results.push(Ok(p.as_ref().map(val_of)));
+                if end {
+                    break;
+                }
+            }
+            Err(e) => {
+                results.push(Err(e.to_string()));
+                break;
+            }
+        }
+    }
+    let worst = tokio::time::timeout(Duration::from_secs(5), peer_task).await.ok().and_then(|r| r.ok()).flatten();
+    ctx.eval(1);
+    ctx.class(&format!("slow-fragments/{}fragments/{}ticks-between", nfrag, ticks_between));
+    match worst {
+        Some(w) if w < Duration::from_millis(250) => {
+            let delivered = matches!(results.first(), Some(Ok(Some(p))) if p.same(&payload));
+            let ended = matches!(results.get(1), Some(Ok(Some(Val::Atom(a)))) if a == "$end$");
+            if !delivered || !ended {
+                ctx.viol(
+                    "C06:lost-or-altered:fragments-arriving-slowly-between-ticks",
+                    "a fragmented message whose fragments arrived further apart than the connection's timeout, with ticks in between, was not returned",
+                    json!({"history": h, "fragments": nfrag, "ticks_between_fragments": ticks_between, "connection_timeout_ms": conn_timeout.as_millis() as u64, "longest_gap_between_the_peers_writes_ms": w.as_millis() as u64, "returned": results.iter().map(|r| match r { Ok(p) => p.as_ref().map(|x| x.show().chars().take(60).collect::<String>()).unwrap_or_else(|| "no payload".into()), Err(e) => format!("error: {}", e) }).collect::<Vec<_>>()}),
+                );
+            }
+            ctx.count("slow_fragment_histories_judged", 1);
+        }
+        _ => ctx.count("slow_fragment_histories_not_judged(peer_writes_too_far_apart)", 1),
+    }
+}
+
 pub(crate) fn frame(body: &[u8]) -> Vec<u8> {
     let mut v = (body.len() as u32).to_be_bytes().to_vec();
     v.extend_from_slice(body);
@@ -520,7 +620,7 @@ async fn read_half_timeline(ctx: &Ctx, seed: u64, id: usize) {
 }
 
 pub fn run(ctx: &Ctx) {
-    ctx.rule("cases = peer histories after a real handshake under three negotiated flag sets (pass-through only; + DIST_HDR_ATOM_CACHE; + FRAGMENTS): every control-message kind, payloads from a few bytes to 70 kB, distribution headers from the atom-cache sender model, legal fragmentations into 1..5 fragments, long-lived connections that learn atoms in more than 256 cache slots over all segments, ticks, and junk frames (random bytes, truncated terms, wrong markers, non-tuples, bad payloads, fragment headers with inconsistent counts) at random positions, also between the fragments of an open sequence and claiming to belong to it (fragment id 0, = count, > count), TCP writes sliced randomly; the sequence of values returned by Connection::receive_message is compared with the sequence of valid messages sent; plus slow-peer timelines for Connection::receive_message_from_read_half (ticks, silences longer than the caller's timeout between frames, frames arriving in pieces with short pauses): every call must return the next message; evaluations = messages and junk frames judged; distinct = distinct (flag set, wire form, control kind, junk kind) combinations");
+    ctx.rule("cases = peer histories after a real handshake under three negotiated flag sets (pass-through only; + DIST_HDR_ATOM_CACHE; + FRAGMENTS): every control-message kind, payloads from a few bytes to 70 kB, distribution headers from the atom-cache sender model, legal fragmentations into 1..5 fragments, long-lived connections that learn atoms in more than 256 cache slots over all segments, ticks, and junk frames (random bytes, truncated terms, wrong markers, non-tuples, bad payloads, fragment headers with inconsistent counts) at random positions, also between the fragments of an open sequence and claiming to belong to it (fragment id 0, = count, > count), TCP writes sliced randomly; the sequence of values returned by Connection::receive_message is compared with the sequence of valid messages sent; plus fragmented messages whose fragments arrive further apart than the connection's timeout with ticks in between (judged when the peer's writes kept their spacing); plus slow-peer timelines for Connection::receive_message_from_read_half (ticks, silences longer than the caller's timeout between frames, frames arriving in pieces with short pauses): every call must return the next message; evaluations = messages and junk frames judged; distinct = distinct (flag set, wire form, control kind, junk kind) combinations");
     ctx.assume("a history ends with a pass-through sentinel message; a receive that fails with timeout/EOF ends the history");
     let rt = tokio::runtime::Builder::new_current_thread().enable_all().build().expect("runtime");
     let mut rng = Rng::derive(ctx.seed, 6, 1);
@@ -529,8 +629,19 @@ pub fn run(ctx: &Ctx) {
         let timelines: Vec<std::pin::Pin<Box<dyn std::future::Future<Output = ()> + '_>>> =
             (0..ctx.pick(10usize, 80usize)).map(|i| Box::pin(read_half_timeline(ctx, ctx.seed.wrapping_mul(1000).wrapping_add(i as u64 + 6), i)) as std::pin::Pin<Box<dyn std::future::Future<Output = ()> + '_>>).collect();
         let timelines = super::common::join_all(timelines);
-        let main_part = async {
+        // fragments arriving slowly between ticks: also concurrently (they mostly wait)
         let epmd = net::start_epmd().await;
+        let epmd = &epmd;
+        let slow = async {
+            let mut srng = Rng::derive(ctx.seed, 6, 77);
+            for h in 0..ctx.pick(4usize, 60usize) {
+                if !ctx.time_left() {
+                    break;
+                }
+                slow_fragments(ctx, &mut srng, epmd, h).await;
+            }
+        };
+        let main_part = async {
         let histories = ctx.pick(240usize, 9000usize);
         for h in 0..histories {
             if !ctx.time_left() {
@@ -682,7 +793,7 @@ pub fn run(ctx: &Ctx) {
             let mut cuts: Vec<usize> = (0..rng.below(40)).map(|_| 1 + rng.below(stream.len() - 1)).collect();
             cuts.sort();
             cuts.dedup();
-            let out = scenario(&epmd, &format!("r{}", h), own_flags, peer_flags, stream.clone(), cuts, frame_count + 8).await;
+            let out = scenario(epmd, &format!("r{}", h), own_flags, peer_flags, stream.clone(), cuts, frame_count + 8).await;
             let wit = |d: serde_json::Value| json!({"history": h, "mode": format!("{:?}", mode), "frames": layout, "detail": d});
             if let Some(e) = &out.connect_error {
                 ctx.inconclusive(&format!("handshake with the scripted peer failed: {}", e));
@@ -753,6 +864,6 @@ pub fn run(ctx: &Ctx) {
             }
         }
         };
-        tokio::join!(timelines, main_part);
+        tokio::join!(timelines, main_part, slow);
     });
 }
